@@ -33,7 +33,8 @@ func findMatches(insts []bytecode.SearchInstruction, all bool, skip int, take in
 		return Matches{}
 	}
 
-	for all || matchNumber < skip+take {
+	// matchNumber-skip cannot overflow, skip+take can (`skip 1 take 9223372036854775807`)
+	for all || matchNumber-skip < take {
 		currentState := CreateState(filename, reader, fileOffset, lineNumber, columnNumber)
 		if len(insts) == 0 {
 			// an empty body matches the empty string; there is no instruction to fetch
